@@ -1,5 +1,9 @@
-(* C11, allOf: the merge of object branches with pairwise disjoint property sets is the conjunction
-   of the branches under the reference semantics, and its properties are the union of theirs. *)
+(* C11, allOf: the merge of branches (Model/Merge.v, the transcription of mergo.Merge on the modelled keywords, deep merge of
+   shared properties and item schemas included) is the conjunction of the branches under the reference semantics, on EVERY
+   document, as long as the branches are compatible: where two branches describe the same position (the same property at any
+   depth, the item schema) they do not both set the same scalar keyword - the merge keeps the first one, which is weaker than
+   the conjunction (recorded finding C11-first-wins-scalar), they do not both list an enum (lists are appended: union instead of
+   intersection, finding C11-allof-enum-union), and their type lists agree. *)
 From GJS Require Import Base Bounds Regex Schema Merge Valid.
 
 Section MergeP.
@@ -7,7 +11,7 @@ Variable fmt_ok : fmtk -> str -> bool.
 Variable defs : list (str * schema).
 Notation valid := (Valid.valid fmt_ok defs).
 
-(* an object branch after reference resolution: no composite, enum or additionalProperties keyword of its own *)
+(* a branch after reference resolution: no composite, enum or additionalProperties keyword of its own *)
 Definition plain (s : schema) : bool :=
   match c_ref (s_con s), c_enum (s_con s), s_addl s, s_addl_false s, s_all_of s, s_any_of s with
   | None, None, None, false, [], [] => true
@@ -18,20 +22,168 @@ Definition obj_or_untyped (s : schema) : bool :=
 Definition obj_typed (s : schema) : bool :=
   match c_types (s_con s) with [SObject] => true | _ => false end.
 
-Definition obj_check (f : nat) (s : schema) (kv : list (str * json)) : bool :=
-  forallb (fun k => match lookup k kv with Some _ => true | None => false end) (c_required (s_con s)) &&
-  forallb (fun p => match lookup (fst p) (s_props s) with Some ps => valid f ps (snd p) | None => true end) kv.
+(* ---------- the reference semantics of a plain node, on every kind of document ---------- *)
+Definition body (f : nat) (s : schema) (j : json) : bool :=
+  match j with
+  | JObj kv =>
+      forallb (fun k => match lookup k kv with Some _ => true | None => false end) (c_required (s_con s)) &&
+      forallb (fun p => match lookup (fst p) (s_props s) with Some ps => valid f ps (snd p) | None => true end) kv
+  | JArr l =>
+      len_ok (c_min_items (s_con s)) (c_max_items (s_con s)) (length l) &&
+      match s_items s with Some it => forallb (valid f it) l | None => true end
+  | JStr x =>
+      len_ok (c_min_len (s_con s)) (c_max_len (s_con s)) (length x) &&
+      match c_pattern (s_con s) with Some p => pat_match p x | None => true end &&
+      match c_format (s_con s) with Some k => fmt_ok k x | None => true end
+  | JNum n => spec_numeric (c_mult (s_con s)) (c_bounds (s_con s)) (nq n)
+  | _ => true
+  end.
 
-Lemma valid_plain f s kv : plain s = true -> obj_or_untyped s = true ->
-  valid (S f) s (JObj kv) = obj_check f s kv.
+Lemma valid_plain_all f s j : plain s = true -> valid (S f) s j = type_ok (c_types (s_con s)) j && body f s j.
 Proof.
-  destruct s as [c props addl af items allof anyof]. unfold plain, obj_or_untyped, obj_check. cbn [s_con s_addl s_addl_false s_all_of s_any_of s_props].
-  intros Hp Ht. cbn [Valid.valid s_con s_all_of s_any_of s_props s_addl s_addl_false].
+  destruct s as [c props addl af items allof anyof]. unfold plain, body. cbn [s_con s_addl s_addl_false s_all_of s_any_of s_props s_items].
+  intros Hp. cbn [Valid.valid s_con s_all_of s_any_of s_props s_addl s_addl_false s_items].
   destruct (c_ref c); [discriminate|]. destruct (c_enum c); [discriminate|]. destruct addl; [discriminate|].
   destruct af; [discriminate|]. destruct allof; [|discriminate]. destruct anyof; [|discriminate].
-  assert (Hty : type_ok (c_types c) (JObj kv) = true).
-  { destruct (c_types c) as [|t [|t' r]]; [reflexivity| |destruct t; discriminate]. destruct t; try discriminate. reflexivity. }
-  rewrite Hty. cbn [forallb andb]. reflexivity.
+  cbn [forallb]. rewrite !andb_true_r. destruct j; reflexivity.
+Qed.
+
+(* ---------- compatibility of two descriptions of one position ---------- *)
+Definition tys_eqb (a b : list sty) : bool :=
+  Nat.eqb (length a) (length b) && forallb (fun p => sty_eqb (fst p) (snd p)) (combine a b).
+Lemma sty_eqb_eq a b : sty_eqb a b = true -> a = b.
+Proof. destruct a, b; cbn; congruence. Qed.
+Lemma tys_eqb_eq : forall a b, tys_eqb a b = true -> a = b.
+Proof.
+  induction a as [|x r IH]; intros [|y s] H; try reflexivity; try discriminate.
+  unfold tys_eqb in H. cbn in H. apply andb_true_iff in H. destruct H as [Hl H]. apply andb_true_iff in H. destruct H as [Hx Hr].
+  apply sty_eqb_eq in Hx. subst y. f_equal. apply IH. unfold tys_eqb. rewrite Hl, Hr. reflexivity.
+Qed.
+
+Definition one_nat (a b : nat) : bool := Nat.eqb a 0 || Nat.eqb b 0.
+Definition one_opt {A} (a b : option A) : bool := match a, b with Some _, Some _ => false | _, _ => true end.
+Definition lower_free (b : bounds) : bool := match b_min b, b_exmin b with None, None => true | _, _ => false end.
+Definition upper_free (b : bounds) : bool := match b_max b, b_exmax b with None, None => true | _, _ => false end.
+Definition types_compat (a b : list sty) : bool := match a, b with [], _ | _, [] => true | x, y => tys_eqb x y end.
+
+Definition scalars_compat (a b : scon) : bool :=
+  types_compat (c_types a) (c_types b) &&
+  one_nat (c_min_items a) (c_min_items b) && one_nat (c_max_items a) (c_max_items b) &&
+  one_nat (c_min_len a) (c_min_len b) && one_nat (c_max_len a) (c_max_len b) &&
+  one_opt (c_pattern a) (c_pattern b) && one_opt (c_mult a) (c_mult b) && one_opt (c_format a) (c_format b) &&
+  (lower_free (c_bounds a) || lower_free (c_bounds b)) && (upper_free (c_bounds a) || upper_free (c_bounds b)).
+
+Fixpoint compat (g : nat) (d s : schema) {struct g} : bool :=
+  match g with
+  | O => false
+  | S g' =>
+      plain d && plain s && scalars_compat (s_con d) (s_con s) &&
+      forallb (fun kv : str * schema => match lookup (fst kv) (s_props s) with Some sp => compat g' (snd kv) sp | None => true end) (s_props d) &&
+      match s_items d, s_items s with Some x, Some y => compat g' x y | _, _ => true end
+  end.
+
+(* ---------- scalar keywords ---------- *)
+Lemma type_ok_merge a b j : types_compat a b = true ->
+  type_ok (match a with [] => b | _ => a end) j = type_ok a j && type_ok b j.
+Proof.
+  unfold types_compat. destruct a as [|x r]; [reflexivity|]. destruct b as [|y s]; [intros _; rewrite andb_true_r; reflexivity|].
+  intros H. apply tys_eqb_eq in H. rewrite <- H. destruct (type_ok (x :: r) j); reflexivity.
+Qed.
+
+Lemma len_ok_merge a1 b1 a2 b2 n : one_nat a1 b1 = true -> one_nat a2 b2 = true ->
+  len_ok (first_nat a1 b1) (first_nat a2 b2) n = len_ok a1 a2 n && len_ok b1 b2 n.
+Proof.
+  unfold one_nat, first_nat, len_ok. intros H1 H2.
+  destruct (Nat.eqb a1 0) eqn:E1; destruct (Nat.eqb a2 0) eqn:E2; cbn [orb] in H1, H2; rewrite ?E1, ?E2, ?H1, ?H2; cbn [orb andb];
+    destruct (b1 =? 0), (b2 =? 0), (a1 <=? n), (b1 <=? n), (n <=? a2), (n <=? b2); reflexivity.
+Qed.
+
+Lemma opt_merge {A} (a b : option A) (P : A -> bool) : one_opt a b = true ->
+  match first_opt a b with Some x => P x | None => true end =
+  match a with Some x => P x | None => true end && match b with Some x => P x | None => true end.
+Proof. destruct a, b; cbn; intros H; try discriminate; rewrite ?andb_true_r; reflexivity. Qed.
+
+Lemma first_qptr_one a b : one_opt a b = true -> first_qptr a b = first_opt a b.
+Proof. destruct a, b; cbn; intros H; try discriminate; reflexivity. Qed.
+
+Lemma spec_multiple_merge a b x : one_opt a b = true ->
+  spec_multiple (first_qptr a b) x = spec_multiple a x && spec_multiple b x.
+Proof. intros H. rewrite (first_qptr_one _ _ H). destruct a, b; cbn in *; try discriminate; rewrite ?andb_true_r; reflexivity. Qed.
+
+Lemma spec_lower_free b x : lower_free b = true -> spec_lower (b_min b) (b_exmin b) x = true.
+Proof. unfold lower_free. destruct (b_min b), (b_exmin b); try discriminate. reflexivity. Qed.
+Lemma spec_upper_free b x : upper_free b = true -> spec_upper (b_max b) (b_exmax b) x = true.
+Proof. unfold upper_free. destruct (b_max b), (b_exmax b); try discriminate. reflexivity. Qed.
+
+Lemma spec_bounds_merge a b x : lower_free a || lower_free b = true -> upper_free a || upper_free b = true ->
+  spec_bounds (merge_bounds a b) x = spec_bounds a x && spec_bounds b x.
+Proof.
+  intros Hl Hu. unfold spec_bounds, merge_bounds. cbn [b_min b_max b_exmin b_exmax].
+  assert (L : spec_lower (first_qptr (b_min a) (b_min b)) (first_opt (b_exmin a) (b_exmin b)) x =
+              spec_lower (b_min a) (b_exmin a) x && spec_lower (b_min b) (b_exmin b) x).
+  { apply orb_true_iff in Hl. destruct Hl as [H|H].
+    - rewrite (spec_lower_free _ x H). unfold lower_free in H. destruct (b_min a), (b_exmin a); try discriminate. reflexivity.
+    - rewrite (spec_lower_free _ x H), andb_true_r. unfold lower_free in H. destruct (b_min b), (b_exmin b); try discriminate.
+      destruct (b_min a), (b_exmin a); reflexivity. }
+  assert (U : spec_upper (first_qptr (b_max a) (b_max b)) (first_opt (b_exmax a) (b_exmax b)) x =
+              spec_upper (b_max a) (b_exmax a) x && spec_upper (b_max b) (b_exmax b) x).
+  { apply orb_true_iff in Hu. destruct Hu as [H|H].
+    - rewrite (spec_upper_free _ x H). unfold upper_free in H. destruct (b_max a), (b_exmax a); try discriminate. reflexivity.
+    - rewrite (spec_upper_free _ x H), andb_true_r. unfold upper_free in H. destruct (b_max b), (b_exmax b); try discriminate.
+      destruct (b_max a), (b_exmax a); reflexivity. }
+  rewrite L, U.
+  destruct (spec_lower (b_min a) (b_exmin a) x), (spec_lower (b_min b) (b_exmin b) x), (spec_upper (b_max a) (b_exmax a) x), (spec_upper (b_max b) (b_exmax b) x); reflexivity.
+Qed.
+
+(* ---------- the property map of the merge ---------- *)
+Section Props.
+Variable g : nat.
+Variable sp : list (str * schema).
+Let F := fun kv : str * schema =>
+  match lookup (fst kv) sp with
+  | Some x => match merge2 g (snd kv) x with Some m => Some (fst kv, m) | None => None end
+  | None => Some kv
+  end.
+
+Lemma omapo_lookup k : forall dp dprops, omapo F dp = Some dprops ->
+  match lookup k dp with
+  | Some x =>
+      match lookup k sp with
+      | Some y => exists m, merge2 g x y = Some m /\ lookup k dprops = Some m
+      | None => lookup k dprops = Some x
+      end
+  | None => lookup k dprops = None
+  end.
+Proof.
+  induction dp as [|[k' x] r IH]; intros dprops H; cbn [omapo] in H.
+  - inversion H; subst. reflexivity.
+  - destruct (F (k', x)) as [y|] eqn:EF; [|discriminate]. destruct (omapo F r) as [ys|] eqn:Er; [|discriminate]. inversion H; subst. clear H.
+    specialize (IH ys eq_refl). unfold F in EF. cbn [fst snd] in EF. cbn [lookup].
+    destruct (str_eqb k k') eqn:E.
+    + apply str_eqb_eq in E. subst k'. destruct (lookup k sp) as [y0|].
+      * destruct (merge2 g x y0) as [m|]; [|discriminate]. inversion EF; subst. exists m. split; [reflexivity|]. cbn [lookup]. rewrite str_eqb_refl. reflexivity.
+      * inversion EF; subst. cbn [lookup]. rewrite str_eqb_refl. reflexivity.
+    + assert (Hy : fst y = k').
+      { destruct (lookup k' sp) as [y0|]; [destruct (merge2 g x y0); [|discriminate]|]; inversion EF; reflexivity. }
+      destruct y as [ky vy]. cbn in Hy. subst ky. cbn [lookup]. rewrite E. exact IH.
+Qed.
+End Props.
+
+Lemma lookup_filter_notin {A} k (keys : list str) (l : list (str * A)) : mem k keys = false ->
+  lookup k (filter (fun kv => negb (mem (fst kv) keys)) l) = lookup k l.
+Proof.
+  intros Hk. induction l as [|[k' v] r IH]; [reflexivity|]. cbn [filter fst lookup].
+  destruct (str_eqb k k') eqn:E.
+  - apply str_eqb_eq in E. subst k'. rewrite Hk. cbn [negb lookup]. rewrite str_eqb_refl. reflexivity.
+  - destruct (negb (mem k' keys)); [cbn [lookup]; rewrite E|]; exact IH.
+Qed.
+
+Lemma lookup_filter_in {A} k (keys : list str) (l : list (str * A)) : mem k keys = true ->
+  lookup k (filter (fun kv => negb (mem (fst kv) keys)) l) = None.
+Proof.
+  intros Hk. induction l as [|[k' v] r IH]; [reflexivity|]. cbn [filter fst].
+  destruct (negb (mem k' keys)) eqn:En; [|exact IH]. cbn [lookup]. destruct (str_eqb k k') eqn:E; [|exact IH].
+  apply str_eqb_eq in E. subst k'. rewrite Hk in En. discriminate.
 Qed.
 
 Lemma lookup_app {A} k (p q : list (str * A)) :
@@ -40,125 +192,123 @@ Proof.
   induction p as [|[k' x] r IH]; [reflexivity|]. cbn [app lookup]. destruct (str_eqb k k'); [reflexivity|exact IH].
 Qed.
 
-Lemma disjoint_lookup {A} k (p q : list (str * A)) x :
-  keys_disjoint q p = true -> lookup k q = Some x -> lookup k p = None.
+Lemma lookup_mem {A} k (l : list (str * A)) : mem k (map fst l) = match lookup k l with Some _ => true | None => false end.
 Proof.
-  intros Hd Hq. apply lookup_In in Hq. unfold keys_disjoint in Hd. rewrite forallb_forall in Hd. specialize (Hd _ Hq). cbn [fst] in Hd.
-  rewrite negb_true_iff in Hd. apply lookup_None. intros Hin. apply mem_In in Hin. congruence.
+  induction l as [|[k' v] r IH]; [reflexivity|]. cbn [map fst mem existsb lookup]. unfold mem in IH.
+  destruct (str_eqb k k'); [reflexivity|exact IH].
 Qed.
 
-(* the properties of the merge are the union of the branches' properties *)
-Lemma merge2_props d s m : merge2 d s = Some m -> s_props m = s_props d ++ s_props s.
+(* ---------- one merge step is the conjunction ---------- *)
+Lemma andb_swap4 a b c d : (a && b) && (c && d) = (a && c) && (b && d).
+Proof. destruct a, b, c, d; reflexivity. Qed.
+
+Lemma forallb_and {A} (p q r : A -> bool) (l : list A) : (forall x, In x l -> p x = q x && r x) -> forallb p l = forallb q l && forallb r l.
 Proof.
-  unfold merge2. destruct (negb (keys_disjoint (s_props s) (s_props d))); [discriminate|].
-  destruct (s_addl d), (s_addl s); try discriminate; destruct (s_items d), (s_items s); try discriminate;
-    match goal with |- (if ?c then _ else _) = _ -> _ => destruct c; [discriminate|] end; intros H; inversion H; reflexivity.
+  induction l as [|x t IH]; intros H; [reflexivity|]. cbn [forallb]. rewrite (H x (or_introl eq_refl)), IH by (intros y Hy; apply H; right; exact Hy).
+  destruct (q x), (r x), (forallb q t), (forallb r t); reflexivity.
 Qed.
 
-Lemma merge2_plain d s m : plain d = true -> plain s = true -> merge2 d s = Some m ->
-  plain m = true /\ c_required (s_con m) = c_required (s_con d) ++ c_required (s_con s) /\
-  c_types (s_con m) = (match c_types (s_con d) with [] => c_types (s_con s) | _ => c_types (s_con d) end) /\
-  keys_disjoint (s_props s) (s_props d) = true.
+Theorem merge2_conj : forall g f d s m j,
+  compat g d s = true -> merge2 g d s = Some m ->
+  plain m = true /\ valid f m j = valid f d j && valid f s j.
 Proof.
-  unfold plain, merge2. destruct d as [cd pd ad fd itd ald and], s as [cs ps as_ fs its als ans].
-  cbn [s_con s_addl s_addl_false s_all_of s_any_of s_props s_items].
-  destruct (c_ref cd) eqn:Erd; [discriminate|]. destruct (c_enum cd) eqn:Eed; [discriminate|]. destruct ad; [discriminate|]. destruct fd; [discriminate|].
-  destruct ald; [|discriminate]. destruct and; [|discriminate]. intros _.
-  destruct (c_ref cs) eqn:Ers; [discriminate|]. destruct (c_enum cs) eqn:Ees; [discriminate|]. destruct as_; [discriminate|]. destruct fs; [discriminate|].
-  destruct als; [|discriminate]. destruct ans; [|discriminate]. intros _.
-  destruct (keys_disjoint ps pd) eqn:Ek; cbn [negb]; [|discriminate].
-  destruct itd, its; try discriminate; cbn; intros H; inversion H; subst; clear H; cbn [s_con s_addl s_addl_false s_all_of s_any_of merge_con c_ref c_enum c_required c_types];
-    rewrite Erd, Ers, Eed, Ees; cbn; auto.
+  induction g as [|g IH]; intros f d s m j Hc Hm; [discriminate|].
+  cbn [compat] in Hc. repeat (apply andb_true_iff in Hc; destruct Hc as [Hc ?]).
+  rename H into Hitems. rename H0 into Hprops. rename H1 into Hsc. rename H2 into Ps. rename Hc into Pd.
+  cbn [merge2] in Hm.
+  destruct (omapo _ (s_props d)) as [dprops|] eqn:Eo; [|discriminate].
+  assert (Ad : s_addl d = None /\ s_addl_false d = false /\ s_all_of d = [] /\ s_any_of d = [] /\ c_ref (s_con d) = None /\ c_enum (s_con d) = None).
+  { unfold plain in Pd. destruct (c_ref (s_con d)), (c_enum (s_con d)), (s_addl d), (s_addl_false d), (s_all_of d), (s_any_of d); try discriminate. repeat split. }
+  assert (As : s_addl s = None /\ s_addl_false s = false /\ s_all_of s = [] /\ s_any_of s = [] /\ c_ref (s_con s) = None /\ c_enum (s_con s) = None).
+  { unfold plain in Ps. destruct (c_ref (s_con s)), (c_enum (s_con s)), (s_addl s), (s_addl_false s), (s_all_of s), (s_any_of s); try discriminate. repeat split. }
+  destruct Ad as (Ad1 & Ad2 & Ad3 & Ad4 & Ad5 & Ad6). destruct As as (As1 & As2 & As3 & As4 & As5 & As6).
+  rewrite Ad1, As1, Ad2, As2, Ad3, As3, Ad4, As4 in Hm. cbn [first_opt andb orb app] in Hm.
+  (* the item schema of the merge *)
+  set (mit := match s_items d, s_items s with
+              | Some x, Some y => match merge2 g x y with Some m0 => Some (Some m0) | None => None end
+              | _, _ => Some (first_opt (s_items d) (s_items s))
+              end) in Hm.
+  destruct mit as [items|] eqn:Eit; [|discriminate]. inversion Hm; subst m. clear Hm.
+  set (M := Sch (merge_con (s_con d) (s_con s)) (dprops ++ filter (fun kv => negb (mem (fst kv) (map fst (s_props d)))) (s_props s)) None false items [] []).
+  assert (Pm : plain M = true).
+  { unfold plain, M. cbn [s_con s_addl s_addl_false s_all_of s_any_of merge_con c_ref c_enum]. rewrite Ad5, As5, Ad6, As6. reflexivity. }
+  split; [exact Pm|].
+  destruct f as [|f]; [reflexivity|].
+  rewrite (valid_plain_all f M j Pm), (valid_plain_all f d j Pd), (valid_plain_all f s j Ps).
+  unfold scalars_compat in Hsc. repeat (apply andb_true_iff in Hsc; destruct Hsc as [Hsc ?]).
+  rename Hsc into Cty. rename H into Cup. rename H0 into Clo. rename H1 into Cfmt. rename H2 into Cmult. rename H3 into Cpat.
+  rename H4 into Cmaxl. rename H5 into Cminl. rename H6 into Cmaxi. rename H7 into Cmini.
+  assert (HT : type_ok (c_types (s_con M)) j = type_ok (c_types (s_con d)) j && type_ok (c_types (s_con s)) j).
+  { unfold M. cbn [s_con merge_con c_types]. apply type_ok_merge. exact Cty. }
+  rewrite HT, andb_swap4. f_equal.
+  destruct j as [| b | n | x | l | kv]; try reflexivity.
+  - (* number *)
+    unfold body, M. cbn [s_con merge_con c_mult c_bounds]. unfold spec_numeric.
+    rewrite (spec_multiple_merge _ _ _ Cmult), (spec_bounds_merge _ _ _ Clo Cup). apply andb_swap4.
+  - (* string *)
+    unfold body, M. cbn [s_con merge_con c_min_len c_max_len c_pattern c_format].
+    rewrite (len_ok_merge _ _ _ _ _ Cminl Cmaxl), (opt_merge _ _ (fun p => pat_match p x) Cpat), (opt_merge _ _ (fun k => fmt_ok k x) Cfmt).
+    destruct (len_ok (c_min_len (s_con d)) (c_max_len (s_con d)) (length x)), (len_ok (c_min_len (s_con s)) (c_max_len (s_con s)) (length x)),
+      (match c_pattern (s_con d) with Some p => pat_match p x | None => true end), (match c_pattern (s_con s) with Some p => pat_match p x | None => true end),
+      (match c_format (s_con d) with Some k => fmt_ok k x | None => true end), (match c_format (s_con s) with Some k => fmt_ok k x | None => true end); reflexivity.
+  - (* array *)
+    unfold body. unfold M at 1 2. cbn [s_con merge_con c_min_items c_max_items]. rewrite (len_ok_merge _ _ _ _ _ Cmini Cmaxi).
+    rewrite andb_swap4. f_equal. unfold M. cbn [s_items].
+    unfold mit in Eit. destruct (s_items d) as [x|] eqn:Ed, (s_items s) as [y|] eqn:Es.
+    + destruct (merge2 g x y) as [m0|] eqn:Em0; [|discriminate]. inversion Eit; subst items.
+      apply forallb_and. intros v _. exact (proj2 (IH f x y m0 v Hitems Em0)).
+    + inversion Eit; subst items. cbn [first_opt]. rewrite andb_true_r. reflexivity.
+    + inversion Eit; subst items. reflexivity.
+    + inversion Eit; subst items. reflexivity.
+  - (* object *)
+    unfold body. unfold M at 1. cbn [s_con merge_con c_required]. rewrite forallb_app, andb_swap4. f_equal.
+    apply forallb_and. intros [k v] _. cbn [fst snd]. unfold M. cbn [s_props]. rewrite lookup_app.
+    pose proof (omapo_lookup g (s_props s) k (s_props d) dprops Eo) as HL.
+    destruct (lookup k (s_props d)) as [x|] eqn:Ld.
+    + destruct (lookup k (s_props s)) as [y|] eqn:Ls.
+      * destruct HL as (m0 & Em0 & Lm). rewrite Lm.
+        rewrite forallb_forall in Hprops. specialize (Hprops (k, x) (lookup_In _ _ _ Ld)). cbn [fst snd] in Hprops. rewrite Ls in Hprops.
+        exact (proj2 (IH f x y m0 v Hprops Em0)).
+      * rewrite HL, andb_true_r. reflexivity.
+    + rewrite HL. rewrite lookup_filter_notin by (rewrite lookup_mem, Ld; reflexivity). reflexivity.
 Qed.
 
-Lemma merge2_valid f d s m kv :
-  plain d = true -> plain s = true -> obj_or_untyped d = true -> obj_or_untyped s = true ->
-  merge2 d s = Some m ->
-  obj_or_untyped m = true /\
-  valid (S f) m (JObj kv) = valid (S f) d (JObj kv) && valid (S f) s (JObj kv).
+(* ---------- a list of branches ---------- *)
+Fixpoint compat_all (d : schema) (bs : list schema) : bool :=
+  match bs with
+  | [] => true
+  | b :: r => compat merge_fuel d b && match merge2 merge_fuel d b with Some d' => compat_all d' r | None => false end
+  end.
+
+Lemma merge_into_conj f j : forall bs d m, plain d = true -> compat_all d bs = true -> merge_into d bs = Some m ->
+  plain m = true /\ valid f m j = valid f d j && forallb (fun b => valid f b j) bs.
 Proof.
-  intros Pd Ps Od Os Hm. destruct (merge2_plain _ _ _ Pd Ps Hm) as [Pm [Hreq [Hty Hdis]]].
-  assert (Om : obj_or_untyped m = true).
-  { unfold obj_or_untyped in *. rewrite Hty. destruct (c_types (s_con d)) as [|t r]; [exact Os|exact Od]. }
-  split; [exact Om|].
-  rewrite (valid_plain f m kv Pm Om), (valid_plain f d kv Pd Od), (valid_plain f s kv Ps Os).
-  unfold obj_check. rewrite Hreq, forallb_app, (merge2_props _ _ _ Hm).
-  set (rd := forallb _ (c_required (s_con d))). set (rs := forallb _ (c_required (s_con s))).
-  assert (Hp : forallb (fun p => match lookup (fst p) (s_props d ++ s_props s) with Some ps => valid f ps (snd p) | None => true end) kv =
-               forallb (fun p => match lookup (fst p) (s_props d) with Some ps => valid f ps (snd p) | None => true end) kv &&
-               forallb (fun p => match lookup (fst p) (s_props s) with Some ps => valid f ps (snd p) | None => true end) kv).
-  { clear -Hdis. induction kv as [|[k v] r IH]; [reflexivity|]. cbn [forallb fst snd]. rewrite IH, lookup_app.
-    destruct (lookup k (s_props d)) eqn:Ed.
-    - destruct (lookup k (s_props s)) eqn:Es.
-      + rewrite (disjoint_lookup _ _ _ _ Hdis Es) in Ed. discriminate.
-      + destruct (valid f s0 v); cbn; [reflexivity|reflexivity].
-    - destruct (lookup k (s_props s)); [|reflexivity].
-      destruct (valid f s0 v); cbn; [reflexivity|]. rewrite andb_false_r. reflexivity. }
-  rewrite Hp. destruct rd, rs; cbn [andb]; rewrite ?andb_false_r; try reflexivity.
+  induction bs as [|b r IH]; intros d m Pd Hc Hm.
+  - cbn in Hm. inversion Hm; subst. cbn [forallb]. rewrite andb_true_r. split; [exact Pd|reflexivity].
+  - cbn [compat_all] in Hc. apply andb_true_iff in Hc. destruct Hc as [Hc1 Hc2].
+    cbn [merge_into] in Hm. destruct (merge2 merge_fuel d b) as [d'|] eqn:E2; [|discriminate].
+    destruct (merge2_conj _ f d b d' j Hc1 E2) as [Pd' Hv].
+    destruct (IH d' m Pd' Hc2 Hm) as [Pm Hvm]. split; [exact Pm|].
+    rewrite Hvm, Hv. cbn [forallb]. rewrite andb_assoc. reflexivity.
 Qed.
 
-Lemma obj_typed_untyped s : obj_typed s = true -> obj_or_untyped s = true.
-Proof. unfold obj_typed, obj_or_untyped. destruct (c_types (s_con s)) as [|[] [|]]; auto. Qed.
+Lemma empty_plain : plain empty_schema = true.
+Proof. reflexivity. Qed.
 
-Lemma merge_into_valid f kv : forall bs d m,
-  plain d = true -> obj_or_untyped d = true ->
-  forallb plain bs = true -> forallb obj_typed bs = true ->
-  merge_into d bs = Some m ->
-  plain m = true /\ obj_or_untyped m = true /\
-  (bs <> [] -> obj_typed m = true) /\ (obj_typed d = true -> obj_typed m = true) /\
-  s_props m = s_props d ++ flat_map s_props bs /\
-  valid (S f) m (JObj kv) = valid (S f) d (JObj kv) && forallb (fun b => valid (S f) b (JObj kv)) bs.
+Lemma valid_empty f j : valid (S f) empty_schema j = true.
 Proof.
-  induction bs as [|b r IH]; intros d m Pd Od Pbs Obs Hm.
-  - cbn in Hm. inversion Hm; subst. cbn [flat_map forallb]. rewrite app_nil_r, andb_true_r. repeat split; auto; try (intros H; exfalso; apply H; reflexivity).
-  - cbn [merge_into] in Hm. destruct (merge2 d b) as [d'|] eqn:E2; [|discriminate].
-    cbn [forallb] in Pbs, Obs. apply andb_true_iff in Pbs. destruct Pbs as [Pb Pr]. apply andb_true_iff in Obs. destruct Obs as [Ob Or].
-    destruct (merge2_valid f d b d' kv Pd Pb Od (obj_typed_untyped _ Ob) E2) as [Od' Hv].
-    destruct (merge2_plain _ _ _ Pd Pb E2) as [Pd' [_ [Hty _]]].
-    assert (Otd' : obj_typed d' = true).
-    { unfold obj_typed, obj_or_untyped in *. rewrite Hty. destruct (c_types (s_con d)) as [|t l]; [exact Ob|].
-      destruct t, l; try discriminate. reflexivity. }
-    destruct (IH d' m Pd' Od' Pr Or Hm) as [Pm [Om [_ [Hkeep [Hprops Hval]]]]].
-    repeat split; auto.
-    + rewrite Hprops, (merge2_props _ _ _ E2), <- app_assoc. reflexivity.
-    + rewrite Hval, Hv. cbn [forallb]. rewrite andb_assoc. reflexivity.
+  rewrite (valid_plain_all f empty_schema j empty_plain). destruct j as [| | | | |kv]; try reflexivity.
+  cbn. induction kv as [|p r IHr]; [reflexivity|exact IHr].
 Qed.
 
-Lemma empty_plain : plain empty_schema = true /\ obj_or_untyped empty_schema = true.
-Proof. split; reflexivity. Qed.
-
-Lemma valid_non_object f s j : obj_typed s = true -> c_ref (s_con s) = None ->
-  (forall kv, j <> JObj kv) -> valid (S f) s j = false.
-Proof.
-  intros Ho Hr Hj. destruct s as [c props addl af items allof anyof]. cbn [Valid.valid s_con] in *. rewrite Hr.
-  unfold obj_typed in Ho. cbn [s_con] in Ho. destruct (c_types c) as [|t [|t' l]]; try discriminate; destruct t; try discriminate.
-  destruct j; cbn; try reflexivity. exfalso. exact (Hj _ eq_refl).
-Qed.
-
-Lemma plain_ref s : plain s = true -> c_ref (s_con s) = None.
-Proof. unfold plain. destruct (c_ref (s_con s)); [discriminate|reflexivity]. Qed.
-
-(* allOf of object branches with pairwise disjoint property sets: the merged schema is their conjunction, on every document *)
+(* allOf of compatible branches, not all of primitive type: the merged schema is their conjunction, on every document *)
 Theorem merge_is_conjunction : forall bs m f j,
-  forallb plain bs = true -> forallb obj_typed bs = true ->
+  forallb prim_or_untyped bs = false -> compat_all empty_schema bs = true ->
   merge_types bs = Some m ->
-  valid (S f) m j = forallb (fun b => valid (S f) b j) bs /\ s_props m = flat_map s_props bs.
+  valid (S f) m j = forallb (fun b => valid (S f) b j) bs.
 Proof.
-  intros bs m f j Pbs Obs Hm. unfold merge_types in Hm. destruct bs as [|b r]; [discriminate|].
-  assert (Hnp : forallb prim_or_untyped (b :: r) = false).
-  { cbn [forallb] in *. apply andb_true_iff in Obs. destruct Obs as [Ob _]. unfold obj_typed in Ob. unfold prim_or_untyped.
-    destruct (c_types (s_con b)) as [|t l]; [discriminate|]. destruct t; try discriminate. reflexivity. }
-  rewrite Hnp in Hm. destruct empty_plain as [Pe Oe].
-  destruct (merge_into_valid f [] (b :: r) empty_schema m Pe Oe Pbs Obs Hm) as [Pm [_ [Hot [_ [Hpr _]]]]].
-  split; [|exact Hpr].
-  assert (Hnon : (forall kv, j <> JObj kv) -> valid (S f) m j = forallb (fun b0 => valid (S f) b0 j) (b :: r)).
-  { intros Hj. rewrite (valid_non_object f m j (Hot ltac:(discriminate)) (plain_ref _ Pm) Hj).
-    cbn [forallb] in *. apply andb_true_iff in Obs. destruct Obs as [Ob _]. apply andb_true_iff in Pbs. destruct Pbs as [Pb _].
-    rewrite (valid_non_object f b j Ob (plain_ref _ Pb) Hj). reflexivity. }
-  destruct j as [| | | | |kv]; try (apply Hnon; intros; discriminate).
-  destruct (merge_into_valid f kv (b :: r) empty_schema m Pe Oe Pbs Obs Hm) as [_ [_ [_ [_ [_ Hv]]]]].
-  rewrite Hv. rewrite (valid_plain f empty_schema kv Pe Oe). unfold obj_check. cbn [empty_schema s_con empty_con c_required s_props forallb lookup andb].
-  replace (forallb (fun _ : str * json => true) kv) with true; [reflexivity|]. clear. induction kv; [reflexivity|exact IHkv].
+  intros bs m f j Hnp Hc Hm. unfold merge_types in Hm. destruct bs as [|b r]; [discriminate|]. rewrite Hnp in Hm.
+  destruct (merge_into_conj (S f) j (b :: r) empty_schema m empty_plain Hc Hm) as [_ Hv]. rewrite Hv, valid_empty. reflexivity.
 Qed.
 
 (* the reference semantics of a composite node *)
@@ -183,12 +333,37 @@ Lemma merge_primitive_refuted :
     forallb (fun b => Valid.valid (fun _ _ => true) [] 3 b (JStr [97; 98; 99]%N)) [prim_branch] = false.
 Proof. eexists. split; [reflexivity|]. split; vm_compute; reflexivity. Qed.
 
-(* non-vacuity of merge_is_conjunction: two object branches, one required key each *)
+(* the compatibility hypothesis is needed: two branches that both bound the length of the same property (first one wins) *)
+Definition len_branch (mn : nat) : schema :=
+  Sch (mkC [SObject] None None [] 0 0 0 0 None None (mkBounds None None None None) None None)
+      [([97]%N, Sch (mkC [SString] None None [] 0 0 mn 0 None None (mkBounds None None None None) None None) [] None false None [] [])] None false None [] [].
+Lemma merge_first_wins_refuted :
+  exists m, merge_types [len_branch 1; len_branch 3] = Some m /\
+    compat_all empty_schema [len_branch 1; len_branch 3] = false /\
+    Valid.valid (fun _ _ => true) [] 4 m (JObj [([97]%N, JStr [120; 121]%N)]) = true /\
+    forallb (fun b => Valid.valid (fun _ _ => true) [] 4 b (JObj [([97]%N, JStr [120; 121]%N)])) [len_branch 1; len_branch 3] = false.
+Proof. eexists. split; [reflexivity|]. repeat split; vm_compute; reflexivity. Qed.
+
+(* non-vacuity: two object branches with a key of their own each, and a shared key that one types and the other bounds *)
 Definition ob (k : str) (t : sty) : schema :=
   Sch (mkC [SObject] None None [k] 0 0 0 0 None None (mkBounds None None None None) None None)
       [(k, Sch (mkC [t] None None [] 0 0 0 0 None None (mkBounds None None None None) None None) [] None false None [] [])] None false None [] [].
+Definition ob_shared1 : schema :=
+  Sch (mkC [SObject] None None [[97]%N] 0 0 0 0 None None (mkBounds None None None None) None None)
+      [([97]%N, Sch (mkC [SString] None None [] 0 0 0 0 None None (mkBounds None None None None) None None) [] None false None [] []);
+       ([115]%N, Sch (mkC [SString] None None [] 0 0 0 4 None None (mkBounds None None None None) None None) [] None false None [] [])] None false None [] [].
+Definition ob_shared2 : schema :=
+  Sch (mkC [SObject] None None [[98]%N] 0 0 0 0 None None (mkBounds None None None None) None None)
+      [([98]%N, Sch (mkC [SInteger] None None [] 0 0 0 0 None None (mkBounds None None None None) None None) [] None false None [] []);
+       ([115]%N, Sch (mkC [] None None [] 0 0 2 0 None None (mkBounds None None None None) None None) [] None false None [] [])] None false None [] [].
 Example merge_inhabited :
   exists m, merge_types [ob [97]%N SString; ob [98]%N SInteger] = Some m /\
-    forallb plain [ob [97]%N SString; ob [98]%N SInteger] = true /\ forallb obj_typed [ob [97]%N SString; ob [98]%N SInteger] = true /\
+    forallb prim_or_untyped [ob [97]%N SString; ob [98]%N SInteger] = false /\ compat_all empty_schema [ob [97]%N SString; ob [98]%N SInteger] = true /\
     map fst (s_props m) = [[97]%N; [98]%N].
+Proof. eexists. split; [reflexivity|]. repeat split; reflexivity. Qed.
+Example merge_shared_inhabited :
+  exists m, merge_types [ob_shared1; ob_shared2] = Some m /\
+    forallb prim_or_untyped [ob_shared1; ob_shared2] = false /\ compat_all empty_schema [ob_shared1; ob_shared2] = true /\
+    map fst (s_props m) = [[97]%N; [115]%N; [98]%N] /\
+    option_map (fun p => (c_min_len (s_con p), c_max_len (s_con p))) (lookup [115]%N (s_props m)) = Some (2, 4).
 Proof. eexists. split; [reflexivity|]. repeat split; reflexivity. Qed.
